@@ -9,6 +9,7 @@ whatever is pending.  Decided: no panic obligation is reachable along the sequen
 Response.
 """
 import itertools
+import json
 import os
 import sys
 
@@ -26,6 +27,294 @@ from checks import c09b  # noqa
 COMMANDS = [":resume", ":skip", ":abort", ":replace 42"]
 
 
+def native_session(prelude, text, cmds):
+    s = native.JsonSession()
+    try:
+        log = []
+        if prelude:
+            s.request(prelude, timeout=6)
+        if text is not None:
+            j, _, _ = s.request(text, timeout=6)
+            log.append((text, native.response_summary(j)[:2]))
+        for c in cmds + [":resume"]:
+            j, _, _ = s.request(c, timeout=6)
+            log.append((c, native.response_summary(j)[:2]))
+        j, _, _ = s.request("1 + 1", timeout=6)
+        probe = native.response_summary(j)[:2]
+        unanswered = [c for c, r in log if r[0] == "none"]
+        dead = (not s.alive()) or probe != ("ok", "2") or bool(unanswered)
+        return {"reproduced": dead, "artefact": {"prelude": prelude, "input": text, "commands": cmds + [":resume", "1 + 1"]},
+                "detail": f"log={log} probe={probe} alive={s.alive()}"}
+    finally:
+        s.close()
+
+
+def run_after_error(P, ctx, job, seq):
+    """Drive the job to an error at top level, then play the command sequence."""
+    mode, kind, n = job
+    S._n[0] = 0
+    T = S.Templates(P, ctx, max_args=1)
+    rec = S.run_job(P, ctx, job, max_args=1, toplevel=True, resume_check=False)
+    if rec["outcome"] != "error":
+        return {"skip": True, "called": list(rec["I"].called), "havocs": list(rec["I"].havocs)}
+    St = rec["S"]
+    I = St.I
+    env, session = St.env, St.session
+
+    def eval_expr_wrapper(I_, args, node):
+        env_, sess_, ex, stref = args
+        exs = I_.deref(ex)
+        inner = exs.inner if isinstance(exs, Rc) else exs
+        if isinstance(inner, Opaque) or (isinstance(inner, Struct) and "__sub" in inner.fields):
+            # a pending sub-expression / the replacement expression: evaluates to one fresh value
+            used = True if isinstance(inner, Opaque) else inner.fields["value_is_used"]
+            if used is None:
+                used = False
+            if used:
+                lab = S.fresh("cont")
+                if isinstance(inner, Opaque) and os.environ.get("VERIF_TIER", "quick") != "thorough":
+                    # the replacement expression of `:replace 42` is the literal 42 (quick); thorough: any value
+                    St.seeded[lab] = M.v_int(Int(42, 64, True))
+                St.push_value(lab)
+            return ok(NONE)
+        return I_.call_user_body(P.fns["eval_expr"], args)
+    I.natives["eval_expr"] = eval_expr_wrapper
+    env.fields.setdefault("tick_limit", NONE)
+    env.fields.setdefault("stack_limit", NONE)
+    env.fields.setdefault("stop_at_expr_id", NONE)
+    env.fields.setdefault("profile", False)
+    session.fields["interrupted"] = Struct("AtomicBool", {"__atomic": False})
+    session.fields["trace_exprs"] = False
+    I.loop_bound = 12
+    responses = []
+    for cmd in seq + [":resume"]:
+        try:
+            r = I.call_user(P.fns["handle_run_request"], [Str(cmd), env, session, NONE, NONE, NONE, NONE])
+            responses.append((cmd, I.type_name(I.deref(r)) or type(r).__name__))
+        except UnwindExceeded:
+            responses.append((cmd, "bound"))
+            break
+    # only what the obligations need: a path's interpreter and machine state are large and there are thousands of paths
+    return {"skip": False, "called": list(I.called), "havocs": list(I.havocs), "responses": responses}
+
+
+def run_native_spec(spec):
+    last = None
+    for sn in spec["sns"]:
+        last = native_session(sn[0], sn[1], list(spec["seq"]))
+        if last["reproduced"]:
+            return last
+    return last or {"reproduced": False, "detail": "no snippet"}
+
+
+def recipe_reps(P, label, job):
+    """Stage 1: the error states of one recipe, one representative (decision prefix) per machine shape."""
+    S._n[0] = 0
+    pre = explore(lambda ctx: S.run_job(P, ctx, job, max_args=1, toplevel=True, resume_check=False), max_paths=6000)
+    reps = {}
+    for r in pre:
+        if r.kind != "ok" or r.value["outcome"] != "error":
+            continue
+        st = r.value["steps"][-1]
+        sig = (st.get("err_origin"), st["state"], len(st["before"]) - len(st["after_restore"]), st.get("stale_entries"),
+               st.get("blocks_delta"), len(r.value["S"].entries()))
+        reps.setdefault(repr(sig), list(r.decisions))
+    return len(pre), list(reps.values())
+
+
+def play_unit(C, P, label, job, dec, seq, names, nsp):
+    """Stage 2: one (error state, command sequence) unit; obligations and candidates go to C."""
+    n_paths = n_states = 0
+    res = explore(lambda ctx: run_after_error(P, ctx, job, seq), max_paths=3000, initial=[dec])
+    C.note_paths(res)
+    for r in res:
+        if r.kind == "ok":
+            for (name, file, l0, l1, h) in r.value["called"]:
+                C.functions[name] = {"fn": name, "file": file, "lines": [l0, l1], "hash": h}
+            C.havocs |= set(r.value["havocs"])
+            if not r.value["skip"]:
+                n_states += 1
+                bad = [c for c, t in r.value["responses"] if t not in ("Response", "bound")]
+                if bad:
+                    C.prove_deferred(f"{label}/{seq}:one-response", r.pc, False, site=f"{S.job_family(label)}/{' '.join(seq)}/no-response",
+                                     what=f"command {bad} does not produce a Response", replay=None, soft=r.tainted)
+            continue
+        if r.kind != "panic":
+            continue
+        p = r.value
+        site = f"{S.job_family(label)} then {' '.join(seq)}/{p.fn}/{p.kind}"
+
+        def replay(_m, job=job, seq=seq, r=r):
+            ctx = Ctx(r.decisions, [])
+            rec = None
+            try:
+                S._n[0] = 0
+                rec = S.run_job(P, ctx, job, max_args=1, toplevel=True, resume_check=False)
+            except Exception:
+                pass
+            if rec is None:
+                rec = {"job": job, "known_tags": dict(ctx.known_tags), "token_values": getattr(ctx, "_last_token_values", {}),
+                       "expr": getattr(ctx, "_last_expr", None), "userfun_params": getattr(ctx, "_last_userfun_params", None)}
+            if rec.get("expr") is None:
+                return {"reproduced": False, "detail": "could not rebuild the recipe"}
+            rec["model"] = _m
+            sns = S.snippet_alternatives(P, rec, names, nsp, limit=4)
+            rec["model"] = None
+            if not sns:
+                return {"reproduced": False, "detail": "no Garden snippet for this recipe"}
+
+            spec = {"sns": [list(sn) for sn in sns], "seq": list(seq)}
+
+            def native_part(spec=spec):
+                return run_native_spec(spec)
+            native_part.spec = spec     # plain data: a pool process hands it to the parent, which replays once per site
+            return native_part
+        C.prove_deferred(f"{label}/{seq}:no-panic:{p.kind}@{p.line}", r.pc, False, site=site,
+                         what=f"after the error in {label}, {seq} + :resume panics: {p}", replay=replay, soft=r.tainted,
+                         model_desc=lambda m, label=label, seq=seq, p=p: {"recipe": label, "commands": seq, "panic": str(p)})
+        n_paths += 1
+    return n_paths, n_states
+
+
+_SHARED = {}
+
+
+def make_seqs(tier):
+    seq_len = 1 if tier == "quick" else 2
+    return [list(s) for n in range(1, seq_len + 1) for s in itertools.product(COMMANDS, repeat=n)]
+
+
+def make_jobs(P, tier):
+    jobs = [(label, job) for label, job in S.jobs(P, max_args=1)]
+    if tier == "quick":
+        # the command-action kernel does not depend on which built-in failed: one representative per call form
+        keep = ("expr:", "fun:PreludePrint/", "fun:PreludeThrow/", "method:StringLen/", "method:ListGet/", "call-other/", "userfun:Fun/")
+        jobs = [(l, j) for l, j in jobs if l.startswith(keep)]
+    only = os.environ.get("VERIF_C09_ONLY")      # debugging aid: restrict part A to some recipes
+    if only:
+        jobs = [(l, j) for l, j in jobs if l.startswith(tuple(only.split(",")))]
+    return jobs
+
+
+def _summary(C, counters):
+    from rsx.core import STATS
+    pend = {}
+    for site, p_ in C._pending.items():
+        pend[site] = {"what": p_["what"], "name": p_["name"], "model": p_["model"], "soft": p_["soft"],
+                      "replays": [(sf, getattr(th, "spec", None), md) for sf, th, md in p_["replays"]]}
+    return {"obligations": C.obligations, "violations": C.violations, "known_hits": C.known_hits,
+            "inconclusive": C.inconclusive, "unconfirmed": C.unconfirmed, "functions": C.functions,
+            "havocs": sorted(C.havocs), "paths": C.paths, "samples": C.samples, "replays": C.replays,
+            "solver_s": STATS.solver_s, "solver_calls": STATS.solver_calls, "counters": counters, "pending": pend}
+
+
+def worker_main(units_file, k, n, out_file):
+    """One independent process of part A (started by the parent, not forked from it: forked or pool children of a
+    large interpreter serialise in the kernel on this machine): every n-th unit, results as JSON."""
+    import time as _time
+    spec = json.load(open(units_file))
+    tier = spec["tier"]
+    os.environ["VERIF_TIER"] = tier
+    P = M.program()
+    jobs = make_jobs(P, tier)
+    Cw = Check("C09", "part A worker")
+    n_paths = n_states = 0
+    not_enc = {}
+    if [l for l, _ in jobs] != spec["labels"]:
+        Cw.inconclusive.append("part A worker derived a different recipe list than the parent")
+        units = []
+    else:
+        units = spec["units"][k::n]
+    names = B.display_names(P, "BuiltInFunctionKind")
+    nsp = B.namespace_paths(P, "BuiltInFunctionKind")
+    tl = os.environ.get("VERIF_C09_TIMES")
+    for (kj, dec, seq) in units:
+        label, job = jobs[kj]
+        t0 = _time.time()
+        p0 = Cw.paths
+        try:
+            a, b = play_unit(Cw, P, label, job, dec, seq, names, nsp)
+            n_paths += a
+            n_states += b
+        except (Unsupported, UnwindExceeded) as ex:
+            not_enc[f"{label} {seq}"] = str(ex)[:140]
+        except Exception as ex:   # a crashed unit must not look like a pass
+            import traceback
+            Cw.inconclusive.append(f"part A unit {label} {seq} crashed: {ex!r} {traceback.format_exc()[-400:]}")
+        if tl:
+            with open(tl, "a") as f:
+                f.write(f"{_time.time() - t0:.1f} {label} {seq} paths={Cw.paths - p0} pid={os.getpid()}\n")
+    with open(out_file, "w") as f:
+        json.dump(_summary(Cw, [n_paths, n_states, not_enc]), f, default=str)
+
+
+def run_part_a_parallel(C, P, jobs, seqs, names, nsp, nw):
+    import subprocess
+    import tempfile
+    from rsx.core import STATS
+    n_paths = n_states = 0
+    not_enc = {}
+    units = []
+    for k, (label, job) in enumerate(jobs):
+        try:
+            n_pre, reps = recipe_reps(P, label, job)
+        except (Unsupported, UnwindExceeded) as ex:
+            not_enc[label] = str(ex)[:140]
+            continue
+        C.paths += n_pre
+        for dec in reps:
+            for seq in seqs:
+                units.append((k, dec, seq))
+    C.extra["part_a_units"] = len(units)
+    d = tempfile.mkdtemp(prefix="verif-c09-", dir="/var/tmp")
+    try:
+        uf = os.path.join(d, "units.json")
+        json.dump({"tier": C.tier, "labels": [l for l, _ in jobs], "units": units}, open(uf, "w"))
+        procs = []
+        for k in range(nw):
+            of = os.path.join(d, f"out{k}.json")
+            pr = subprocess.Popen([sys.executable, os.path.abspath(__file__), "--part-a-worker", uf, str(k), str(nw), of],
+                                  stdout=subprocess.DEVNULL, stderr=open(os.path.join(d, f"err{k}.txt"), "w"))
+            procs.append((pr, of, k))
+        for pr, of, k in procs:
+            pr.wait()
+            if pr.returncode != 0 or not os.path.exists(of):
+                err = open(os.path.join(d, f"err{k}.txt")).read()[-400:]
+                C.inconclusive.append(f"part A worker {k} failed (status {pr.returncode}): {err}")
+                continue
+            o = json.load(open(of))
+            C.obligations += o["obligations"]
+            C.violations += [tuple(v) for v in o["violations"] if tuple(v) not in C.violations]
+            for s_, w_ in o["known_hits"]:
+                if not any(s_ == s2 for s2, _ in C.known_hits):
+                    C.known_hits.append((s_, w_))
+            C.inconclusive += o["inconclusive"]
+            C.unconfirmed += [x for x in o["unconfirmed"] if x not in C.unconfirmed]
+            C.functions.update(o["functions"])
+            C.havocs |= set(o["havocs"])
+            C.paths += o["paths"]
+            for smp in o["samples"]:
+                C.sample(smp)
+            C.replays += o["replays"]
+            STATS.solver_s += o["solver_s"]
+            STATS.solver_calls += o["solver_calls"]
+            for site, pw in o.get("pending", {}).items():
+                pp = C._pending.setdefault(site, {"replays": [], "what": pw["what"], "name": pw["name"], "model": pw["model"],
+                                                  "soft": pw["soft"], "obs": []})
+                pp["soft"] = pp["soft"] and pw["soft"]
+                for sf, spec, md in pw["replays"]:
+                    if spec is not None and len(pp["replays"]) < 12:
+                        pp["replays"].append((sf, (lambda spec=spec: run_native_spec(spec)), md))
+            a, b_, c = o["counters"]
+            n_paths += a
+            n_states += b_
+            not_enc.update(c)
+    finally:
+        import shutil
+        shutil.rmtree(d, ignore_errors=True)
+    return n_paths, n_states, not_enc
+
+
 def main():
     C = Check("C09", "the JSON session answers every request and never dies")
     P = M.program()
@@ -36,159 +325,19 @@ def main():
     C.assumptions += M.NATIVE_NOTES + [
         "start states are produced by the real dispatcher (each sub-expression evaluates to one symbolic value), at top level "
         "(one frame, one bindings block), and stopped by a real error + restore_stack_frame",
-        "pending sub-expression tokens and the replacement expression evaluate to one fresh symbolic value each",
+        "pending sub-expression tokens evaluate to one fresh symbolic value each; the replacement expression of `:replace 42` evaluates to Int 42 (quick) / to any value (thorough)",
         "the reader thread, stdin framing, serde_json and the ~25 printing commands of run_command are outside the claim",
         "panic candidates on over-approximated paths count only if the scripted JSON session dies or stops answering",
     ]
     names = B.display_names(P, "BuiltInFunctionKind")
     nsp = B.namespace_paths(P, "BuiltInFunctionKind")
-    seqs = [list(s) for n in range(1, seq_len + 1) for s in itertools.product(COMMANDS, repeat=n)]
+    seqs = make_seqs(C.tier)
 
-    def native_session(prelude, text, cmds):
-        s = native.JsonSession()
-        try:
-            log = []
-            if prelude:
-                s.request(prelude, timeout=6)
-            if text is not None:
-                j, _, _ = s.request(text, timeout=6)
-                log.append((text, native.response_summary(j)[:2]))
-            for c in cmds + [":resume"]:
-                j, _, _ = s.request(c, timeout=6)
-                log.append((c, native.response_summary(j)[:2]))
-            j, _, _ = s.request("1 + 1", timeout=6)
-            probe = native.response_summary(j)[:2]
-            unanswered = [c for c, r in log if r[0] == "none"]
-            dead = (not s.alive()) or probe != ("ok", "2") or bool(unanswered)
-            return {"reproduced": dead, "artefact": {"prelude": prelude, "input": text, "commands": cmds + [":resume", "1 + 1"]},
-                    "detail": f"log={log} probe={probe} alive={s.alive()}"}
-        finally:
-            s.close()
-
-    def run_after_error(ctx, job, seq):
-        """Drive the job to an error at top level, then play the command sequence."""
-        mode, kind, n = job
-        S._n[0] = 0
-        T = S.Templates(P, ctx, max_args=1)
-        rec = S.run_job(P, ctx, job, max_args=1, toplevel=True, resume_check=False)
-        if rec["outcome"] != "error":
-            return {"skip": True, "I": rec["I"]}
-        St = rec["S"]
-        I = St.I
-        env, session = St.env, St.session
-        expr = rec["expr"]
-
-        def eval_expr_wrapper(I_, args, node):
-            env_, sess_, ex, stref = args
-            exs = I_.deref(ex)
-            inner = exs.inner if isinstance(exs, Rc) else exs
-            if isinstance(inner, Opaque) or (isinstance(inner, Struct) and "__sub" in inner.fields):
-                # a pending sub-expression / the replacement expression: evaluates to one fresh value
-                used = True if isinstance(inner, Opaque) else inner.fields["value_is_used"]
-                if used is None:
-                    used = False
-                if used:
-                    St.push_value(S.fresh("cont"))
-                return ok(NONE)
-            return I_.call_user_body(P.fns["eval_expr"], args)
-        I.natives["eval_expr"] = eval_expr_wrapper
-        env.fields.setdefault("tick_limit", NONE)
-        env.fields.setdefault("stack_limit", NONE)
-        env.fields.setdefault("stop_at_expr_id", NONE)
-        env.fields.setdefault("profile", False)
-        session.fields["interrupted"] = Struct("AtomicBool", {"__atomic": False})
-        session.fields["trace_exprs"] = False
-        I.loop_bound = 12
-        responses = []
-        for cmd in seq + [":resume"]:
-            try:
-                r = I.call_user(P.fns["handle_run_request"], [Str(cmd), env, session, NONE, NONE, NONE, NONE])
-                responses.append((cmd, I.type_name(I.deref(r)) or type(r).__name__))
-            except UnwindExceeded:
-                responses.append((cmd, "bound"))
-                break
-        return {"skip": False, "I": I, "rec": rec, "responses": responses}
-
-    jobs = [(label, job) for label, job in S.jobs(P, max_args=1)]
-    if C.tier == "quick":
-        # the command-action kernel does not depend on which built-in failed: one representative per call form
-        keep = ("expr:", "fun:PreludePrint/", "fun:PreludeThrow/", "method:StringLen/", "method:ListGet/", "call-other/", "userfun:Fun/")
-        jobs = [(l, j) for l, j in jobs if l.startswith(keep)]
+    jobs = make_jobs(P, C.tier)
     C.extra["recipes"] = [l for l, _ in jobs]
-    n_paths = 0
-    n_states = 0
-    not_enc = {}
-    for label, job in jobs:
-        # phase 1: the error states of this recipe, grouped by machine shape; commands are played once per shape
-        try:
-            S._n[0] = 0
-            pre = explore(lambda ctx: S.run_job(P, ctx, job, max_args=1, toplevel=True, resume_check=False), max_paths=6000)
-        except (Unsupported, UnwindExceeded) as ex:
-            not_enc[label] = str(ex)[:140]
-            continue
-        reps = {}
-        for r in pre:
-            if r.kind != "ok" or r.value["outcome"] != "error":
-                continue
-            st = r.value["steps"][-1]
-            sig = (st.get("err_origin"), st["state"], len(st["before"]) - len(st["after_restore"]), st.get("stale_entries"),
-                   st.get("blocks_delta"), len(r.value["S"].entries()))
-            reps.setdefault(sig, r.decisions)
-        C.paths += len(pre)
-        for sig, dec in reps.items():
-          for seq in seqs:
-            try:
-                res = explore(lambda ctx: run_after_error(ctx, job, seq), max_paths=3000, initial=[dec])
-            except (Unsupported, UnwindExceeded) as ex:
-                not_enc[f"{label} {seq}"] = str(ex)[:140]
-                continue
-            C.note_paths(res)
-            for r in res:
-                if r.kind == "ok":
-                    C.note_interp(r.value["I"])
-                    if not r.value["skip"]:
-                        n_states += 1
-                        bad = [c for c, t in r.value["responses"] if t not in ("Response", "bound")]
-                        if bad:
-                            C.prove_deferred(f"{label}/{seq}:one-response", r.pc, False, site=f"{S.job_family(label)}/{' '.join(seq)}/no-response",
-                                             what=f"command {bad} does not produce a Response", replay=None, soft=r.tainted)
-                    continue
-                if r.kind != "panic":
-                    continue
-                p = r.value
-                site = f"{S.job_family(label)} then {' '.join(seq)}/{p.fn}/{p.kind}"
-
-                def replay(_m, job=job, seq=seq, r=r):
-                    ctx = Ctx(r.decisions, [])
-                    rec = None
-                    try:
-                        S._n[0] = 0
-                        rec = S.run_job(P, ctx, job, max_args=1, toplevel=True, resume_check=False)
-                    except Exception:
-                        pass
-                    if rec is None:
-                        rec = {"job": job, "known_tags": dict(ctx.known_tags), "token_values": getattr(ctx, "_last_token_values", {}),
-                               "expr": getattr(ctx, "_last_expr", None), "userfun_params": getattr(ctx, "_last_userfun_params", None)}
-                    if rec.get("expr") is None:
-                        return {"reproduced": False, "detail": "could not rebuild the recipe"}
-                    rec["model"] = _m
-                    sns = S.snippet_alternatives(P, rec, names, nsp, limit=4)
-                    rec["model"] = None
-                    if not sns:
-                        return {"reproduced": False, "detail": "no Garden snippet for this recipe"}
-
-                    def native_part():
-                        last = None
-                        for sn in sns:
-                            last = native_session(sn[0], sn[1], list(seq))
-                            if last["reproduced"]:
-                                return last
-                        return last
-                    return native_part
-                C.prove_deferred(f"{label}/{seq}:no-panic:{p.kind}@{p.line}", r.pc, False, site=site,
-                                 what=f"after the error in {label}, {seq} + :resume panics: {p}", replay=replay, soft=r.tainted,
-                                 model_desc=lambda m, label=label, seq=seq, p=p: {"recipe": label, "commands": seq, "panic": str(p)})
-                n_paths += 1
+    nw = int(os.environ.get("VERIF_WORKERS", "8"))
+    C.extra["part_a_processes"] = nw
+    n_paths, n_states, not_enc = run_part_a_parallel(C, P, jobs, seqs, names, nsp, nw)
     # idle state: commands with nothing pending
     for seq in seqs:
         def run_idle(ctx, seq=seq):
@@ -237,4 +386,9 @@ def main():
 
 
 if __name__ == "__main__":
-    run_check(main)
+    if len(sys.argv) > 1 and sys.argv[1] == "--part-a-worker":
+        import gc
+        gc.set_threshold(400000, 50, 50)
+        worker_main(sys.argv[2], int(sys.argv[3]), int(sys.argv[4]), sys.argv[5])
+    else:
+        run_check(main)
